@@ -22,6 +22,13 @@ REPO = "/repo"
 HEAD = None
 
 
+def make_copy_head():
+    global HEAD
+    if HEAD is None:
+        r = subprocess.run(["git", "-C", REPO, "rev-parse", "HEAD"], stdout=subprocess.PIPE, stderr=subprocess.DEVNULL, text=True)
+        HEAD = r.stdout.strip() if r.returncode == 0 else ""
+
+
 def make_copy():
     """A scratch copy of /repo's committed tree (HEAD at the time the selftest started): immune to edits of the working tree
     made while the selftest runs. Falls back to the working tree when /repo is not a git checkout."""
@@ -39,8 +46,25 @@ def make_copy():
     return d
 
 
+import threading
+_slot = threading.local()
+
+
+def worker_target(i):
+    """Each parallel worker analyses its scratch copies with its own cargo target dir (a copy of the warm one)."""
+    base = os.path.join(VERIF, ".cache", "target-nightly")
+    if i == 0:
+        return base
+    d = base + f"-w{i}"
+    if not os.path.isdir(d) and os.path.isdir(base):
+        subprocess.run(["cp", "-a", base, d], check=False)
+    return d
+
+
 def run_check(pid, repo):
     env = dict(os.environ, VERIF_REPO=repo, VERIF_SELFTEST="1")
+    if getattr(_slot, "i", None) is not None:
+        env["VERIF_TARGET"] = worker_target(_slot.i)
     r = subprocess.run([os.path.join(VERIF, "check"), pid], env=env, stdout=subprocess.PIPE, stderr=subprocess.STDOUT, text=True)
     return r.returncode, r.stdout
 
@@ -126,144 +150,184 @@ def later_fixes(h):
     return out
 
 
+def regress_case(h, subj, pid, keys):
+    name = f"regress:{h}" + (f":{pid}" if pid else "")
+    if pid is None:
+        return (name, "skip", f"`{subj}`: no fixed entry in known_findings.json names this commit")
+    repo = make_copy()
+    try:
+        def revert(commit):
+            diff = subprocess.run(["git", "-C", REPO, "show", "-R", "--format=", commit], stdout=subprocess.PIPE, text=True).stdout
+            pf = os.path.join(repo, ".selftest-revert.diff")
+            open(pf, "w").write(diff)
+            ok, _ = git_apply(repo, pf)
+            os.remove(pf)
+            return ok
+
+        def files_of(commit):
+            return set(subprocess.run(["git", "-C", REPO, "show", "--name-only", "--format=", commit], stdout=subprocess.PIPE, text=True).stdout.split())
+
+        ok = revert(h)
+        also = []
+        if not ok:
+            # later fix commits on the same files are reverted first (newest first), then this one
+            mine = files_of(h)
+            for h2 in later_fixes(h):
+                if files_of(h2) & mine:
+                    if revert(h2):
+                        also.append(h2)
+            ok = revert(h)
+        if not ok:
+            return (name, "skip", f"`{subj}`: reverse patch no longer applies (later commits touch the same lines)")
+        if also:
+            subj = subj + f" (together with later fix(es) {', '.join(also)} on the same lines)"
+        rc, out = run_check(pid, repo)
+        if "-build.log" in out:
+            # later fixes build on this one (e.g. use a helper it introduced): revert every later fix, newest first, then this one
+            shutil.rmtree(repo, ignore_errors=True)
+            repo = make_copy()
+            also = [h2 for h2 in later_fixes(h) if revert(h2)]
+            if not revert(h):
+                return (name, "skip", f"`{subj}`: cannot be reverted on its own or under its later fixes")
+            subj = subj.split(" (together")[0] + f" (together with all later fixes {', '.join(also)}: they build on it)"
+            rc, out = run_check(pid, repo)
+        fails = [l.strip() for l in out.splitlines() if l.strip().startswith("FAIL")]
+        hit = [l for l in fails if any(k in l for k in keys)]
+        if rc == 1 and hit:
+            return (name, "ok", f"with `{subj}` reverted, {pid} reports {len(hit)} of its {len(keys)} recorded key(s): {hit[0][:100]}")
+        return (name, "FAIL", f"with `{subj}` reverted, {pid} exit {rc} and none of the recorded keys {keys[:3]} is reported")
+    finally:
+        shutil.rmtree(repo, ignore_errors=True)
+
+
+def seed_case(name):
+    d = os.path.join(VERIF, "seeded", name)
+    meta = json.load(open(os.path.join(d, "meta.json")))
+    caught_by = meta.get("caught_by", "")
+    m = re.match(r"(C\d\d)\.(R\d+)", caught_by)
+    if not m:
+        return (name, "skip", "no caught_by rule recorded (seed is listed as missed)")
+    pid, rule = m.group(1), m.group(1) + "." + m.group(2)
+    repo = make_copy()
+    try:
+        patch = os.path.join(d, "patch_current.diff") if os.path.exists(os.path.join(d, "patch_current.diff")) else os.path.join(d, "patch.diff")
+        ok, out = git_apply(repo, patch)
+        if not ok:
+            return (name, "FAIL", "patch does not apply to the current tree: " + out.strip()[:120])
+        rc, out = run_check(pid, repo)
+        named = [l for l in out.splitlines() if l.strip().startswith("FAIL") and rule in l]
+        if rc == 1 and named:
+            return (name, "ok", f"{pid} fails and names {rule}: {named[0].strip()[:110]}")
+        return (name, "FAIL", f"{pid} exit {rc}; expected a FAIL line naming {rule}")
+    finally:
+        shutil.rmtree(repo, ignore_errors=True)
+
+
+def variant_case(vname, fn, pids):
+    repo = make_copy()
+    try:
+        what = fn(repo)
+        bad = []
+        for pid in pids:
+            rc, out = run_check(pid, repo)
+            if rc != 0:
+                bad.append(pid + ": " + "; ".join(l.strip()[:100] for l in out.splitlines() if l.strip().startswith("FAIL"))[:300])
+        if bad:
+            return ("benign:" + vname, "FAIL", f"{what}: alarm(s) {bad}")
+        return ("benign:" + vname, "ok", f"{what}: {', '.join(pids)} stay silent")
+    finally:
+        shutil.rmtree(repo, ignore_errors=True)
+
+
+ALLP = ["C01", "C02", "C03", "C04", "C05", "C07", "C08", "C09", "C10", "C11", "C12", "C13", "C14", "C15", "C16", "C17", "C18"]
+
+
+def corpus_case(name):
+    bdir = os.path.join(VERIF, "benign")
+    repo = make_copy()
+    try:
+        pc = os.path.join(bdir, name, "patch_current.diff")     # the same refactoring re-made after a later fix changed the lines
+        ok, out = git_apply(repo, pc if os.path.exists(pc) else os.path.join(bdir, name, "patch.diff"))
+        if not ok:
+            return ("corpus:" + name, "skip", "patch no longer applies to the current tree")
+        meta = json.load(open(os.path.join(bdir, name, "meta.json")))
+        bad = []
+        for pid in ALLP:
+            rc, out = run_check(pid, repo)
+            if rc != 0:
+                bad.append(pid + ": " + "; ".join(l.strip()[:90] for l in out.splitlines() if l.strip().startswith("FAIL"))[:250])
+        if bad:
+            return ("corpus:" + name, "FAIL", f"{meta.get('style', '')[:60]} in {meta.get('function', '')[:40]}: alarm(s) {bad}")
+        return ("corpus:" + name, "ok", f"{meta.get('style', '')[:70]} ({meta.get('function', '')[:40]}): all 17 checks silent")
+    finally:
+        shutil.rmtree(repo, ignore_errors=True)
+
+
 def main(args):
+    """./check --selftest [-j N] [regress] [benign] [corpus] [seed-id | corpus:<id> ...]"""
+    args = list(args)
+    jobs_n = 1
+    if "-j" in args:
+        i = args.index("-j")
+        jobs_n = max(1, int(args[i + 1]))
+        del args[i:i + 2]
     seeds_dir = os.path.join(VERIF, "seeded")
     want = set(args)
-    results = []
-    ok_all = True
+    jobs = []
     if not want or "regress" in want:
         for h, subj, pid, keys in fix_regressions():
-            name = f"regress:{h}" + (f":{pid}" if pid else "")
-            if pid is None:
-                results.append((name, "skip", f"`{subj}`: no fixed entry in known_findings.json names this commit"))
+            jobs.append((regress_case, (h, subj, pid, keys)))
+    groups = {"regress", "benign", "corpus"}
+    named_corpus = {w[len("corpus:"):] for w in want if w.startswith("corpus:")}
+    named_seeds = {w for w in want if w not in groups and not w.startswith("corpus:")}
+    if not want or named_seeds or "seeds" in want:
+        for name in sorted(os.listdir(seeds_dir)):
+            if not os.path.isdir(os.path.join(seeds_dir, name)) or (named_seeds - {"seeds"} and name not in named_seeds):
                 continue
-            repo = make_copy()
-            try:
-                def revert(commit):
-                    diff = subprocess.run(["git", "-C", REPO, "show", "-R", "--format=", commit], stdout=subprocess.PIPE, text=True).stdout
-                    pf = os.path.join(repo, ".selftest-revert.diff")
-                    open(pf, "w").write(diff)
-                    ok, _ = git_apply(repo, pf)
-                    os.remove(pf)
-                    return ok
-
-                def files_of(commit):
-                    return set(subprocess.run(["git", "-C", REPO, "show", "--name-only", "--format=", commit], stdout=subprocess.PIPE, text=True).stdout.split())
-
-                ok = revert(h)
-                also = []
-                if not ok:
-                    # later fix commits on the same files are reverted first (newest first), then this one
-                    mine = files_of(h)
-                    for h2 in later_fixes(h):
-                        if files_of(h2) & mine:
-                            if revert(h2):
-                                also.append(h2)
-                    ok = revert(h)
-                if not ok:
-                    results.append((name, "skip", f"`{subj}`: reverse patch no longer applies (later commits touch the same lines)"))
-                    continue
-                if also:
-                    subj = subj + f" (together with later fix(es) {', '.join(also)} on the same lines)"
-                rc, out = run_check(pid, repo)
-                if "-build.log" in out:
-                    # later fixes build on this one (e.g. use a helper it introduced): revert every later fix, newest first, then this one
-                    shutil.rmtree(repo, ignore_errors=True)
-                    repo = make_copy()
-                    also = [h2 for h2 in later_fixes(h) if revert(h2)]
-                    if not revert(h):
-                        results.append((name, "skip", f"`{subj}`: cannot be reverted on its own or under its later fixes"))
-                        continue
-                    subj = subj.split(" (together")[0] + f" (together with all later fixes {', '.join(also)}: they build on it)"
-                    rc, out = run_check(pid, repo)
-                fails = [l.strip() for l in out.splitlines() if l.strip().startswith("FAIL")]
-                hit = [l for l in fails if any(k in l for k in keys)]
-                if rc == 1 and hit:
-                    results.append((name, "ok", f"with `{subj}` reverted, {pid} reports {len(hit)} of its {len(keys)} recorded key(s): {hit[0][:100]}"))
-                else:
-                    results.append((name, "FAIL", f"with `{subj}` reverted, {pid} exit {rc} and none of the recorded keys {keys[:3]} is reported"))
-                    ok_all = False
-            finally:
-                shutil.rmtree(repo, ignore_errors=True)
-    if want and not (want - {"regress", "benign"}):
-        seeds_only = False
-    else:
-        seeds_only = True
-    for name in sorted(os.listdir(seeds_dir)) if seeds_only else []:
-        d = os.path.join(seeds_dir, name)
-        if not os.path.isdir(d) or (want and name not in want):
-            continue
-        meta = json.load(open(os.path.join(d, "meta.json")))
-        caught_by = meta.get("caught_by", "")
-        m = re.match(r"(C\d\d)\.(R\d+)", caught_by)
-        if not m:
-            results.append((name, "skip", "no caught_by rule recorded (seed is listed as missed)"))
-            continue
-        pid, rule = m.group(1), m.group(1) + "." + m.group(2)
-        repo = make_copy()
-        try:
-            patch = os.path.join(d, "patch_current.diff") if os.path.exists(os.path.join(d, "patch_current.diff")) else os.path.join(d, "patch.diff")
-            ok, out = git_apply(repo, patch)
-            if not ok:
-                results.append((name, "FAIL", "patch does not apply to the current tree: " + out.strip()[:120]))
-                ok_all = False
-                continue
-            rc, out = run_check(pid, repo)
-            named = [l for l in out.splitlines() if l.strip().startswith("FAIL") and rule in l]
-            if rc == 1 and named:
-                results.append((name, "ok", f"{pid} fails and names {rule}: {named[0].strip()[:110]}"))
-            else:
-                results.append((name, "FAIL", f"{pid} exit {rc}; expected a FAIL line naming {rule}"))
-                ok_all = False
-        finally:
-            shutil.rmtree(repo, ignore_errors=True)
+            jobs.append((seed_case, (name,)))
     if not want or "benign" in want:
         for vname, fn, pids in benign_variants():
-            repo = make_copy()
-            try:
-                what = fn(repo)
-                bad = []
-                for pid in pids:
-                    rc, out = run_check(pid, repo)
-                    if rc != 0:
-                        bad.append(pid + ": " + "; ".join(l.strip()[:100] for l in out.splitlines() if l.strip().startswith("FAIL"))[:300])
-                if bad:
-                    results.append(("benign:" + vname, "FAIL", f"{what}: alarm(s) {bad}"))
-                    ok_all = False
-                else:
-                    results.append(("benign:" + vname, "ok", f"{what}: {', '.join(pids)} stay silent"))
-            finally:
-                shutil.rmtree(repo, ignore_errors=True)
-    if not want or "benign" in want or "corpus" in want:
+            jobs.append((variant_case, (vname, fn, pids)))
+    bdir = os.path.join(VERIF, "benign")
+    if not want or "benign" in want or "corpus" in want or named_corpus:
         # behaviour-preserving refactorings written by independent agents (benign/<id>/patch.diff): every check must stay silent
-        bdir = os.path.join(VERIF, "benign")
-        allp = ["C01", "C02", "C03", "C04", "C05", "C07", "C08", "C09", "C10", "C11", "C12", "C13", "C14", "C15", "C16", "C17", "C18"]
         for name in sorted(os.listdir(bdir)) if os.path.isdir(bdir) else []:
-            repo = make_copy()
+            if named_corpus and not ("corpus" in want or "benign" in want or not want) and name not in named_corpus:
+                continue
+            jobs.append((corpus_case, (name,)))
+    make_copy_head()
+    results = [None] * len(jobs)
+    if jobs_n == 1:
+        for k, (fn, a) in enumerate(jobs):
+            results[k] = fn(*a)
+    else:
+        import queue
+        from concurrent.futures import ThreadPoolExecutor
+        slots = queue.Queue()
+        for i in range(jobs_n):
+            worker_target(i)
+            slots.put(i)
+
+        def run(k):
+            i = slots.get()
+            _slot.i = i
             try:
-                pc = os.path.join(bdir, name, "patch_current.diff")     # the same refactoring re-made after a later fix changed the lines
-                ok, out = git_apply(repo, pc if os.path.exists(pc) else os.path.join(bdir, name, "patch.diff"))
-                if not ok:
-                    results.append(("corpus:" + name, "skip", "patch no longer applies to the current tree"))
-                    continue
-                meta = json.load(open(os.path.join(bdir, name, "meta.json")))
-                bad = []
-                for pid in allp:
-                    rc, out = run_check(pid, repo)
-                    if rc != 0:
-                        bad.append(pid + ": " + "; ".join(l.strip()[:90] for l in out.splitlines() if l.strip().startswith("FAIL"))[:250])
-                if bad:
-                    results.append(("corpus:" + name, "FAIL", f"{meta.get('style', '')[:60]} in {meta.get('function', '')[:40]}: alarm(s) {bad}"))
-                    ok_all = False
-                else:
-                    results.append(("corpus:" + name, "ok", f"{meta.get('style', '')[:70]} ({meta.get('function', '')[:40]}): all 17 checks silent"))
+                fn, a = jobs[k]
+                try:
+                    results[k] = fn(*a)
+                except Exception as e:   # a crashed case is a failed case
+                    results[k] = (str(a[0]), "FAIL", f"selftest case crashed: {e!r}")
             finally:
-                shutil.rmtree(repo, ignore_errors=True)
+                slots.put(i)
+        with ThreadPoolExecutor(max_workers=jobs_n) as ex:
+            list(ex.map(run, range(len(jobs))))
+    ok_all = not any(r[1] == "FAIL" for r in results)
     for r in results:
         print(f"  [{r[1]:4}] {r[0]}: {r[2]}")
     n_ok = sum(1 for r in results if r[1] == "ok")
     print(f"selftest: {n_ok} ok, {sum(1 for r in results if r[1] == 'FAIL')} failed, {sum(1 for r in results if r[1] == 'skip')} skipped")
     out = os.path.join(VERIF, "evidence", "selftest.json")
-    os.makedirs(os.path.dirname(out), exist_ok=True)
-    json.dump([{"case": a, "status": b, "detail": c} for a, b, c in results], open(out, "w"), indent=1)
+    if not want:
+        os.makedirs(os.path.dirname(out), exist_ok=True)
+        json.dump([{"case": a, "status": b, "detail": c} for a, b, c in results], open(out, "w"), indent=1)
     return 0 if ok_all else 1
